@@ -2,16 +2,23 @@
    Statements only.  shown d g v is the client-side property that a definition of v
    (in group g of device d) creates: name, kind, group, label, state and the enabled
    elements with their labels and wire values (numbers as the format renders them).
-   PARTIAL: proved here are the message-level facts (every definition and every update the
-   driver publishes puts the mirror's entry in the state "shown" of the property as it then
-   is, and touches no other entry), the handshake answer and the operation-level theorem of
-   System/Ops.v where present; that a connected client receives exactly the published
-   stream (routing C04/C05, framing C02, codec C03, ordering C19) is composed in the system
-   model and validated by the system-level correspondence, not proved as one theorem.
-   REFUTED for BLOB payloads: a definition carries no payload (known finding K2). *)
+   Proved (System/Converge.v, System/Ops.v): the handshake answer brings a mirror that knows
+   nothing of the device in sync; EVERY driver-side operation of the property's list (assign,
+   set_value, selected values, state, enabling of a property or of a group) and every client
+   write, on ANY device definition without event handlers (any groups, kinds, rules, formats,
+   flags), publishes a stream that takes a mirror in sync with the device before to a mirror
+   in sync with the device after; hence any history does.  "In sync": for every property
+   name, the entry is what a definition of the property as it now is creates - name, kind,
+   group, label, state, the enabled elements with labels and wire values - absent when the
+   property is not exposed, and there are no other entries.
+   PARTIAL in one respect: that a connected client receives exactly the published stream
+   (routing C04/C05, framing C02, codec C03, ordering C19) is composed in the system model and
+   validated by the system-level correspondence, not proved as one theorem.
+   REFUTED for BLOB payloads (the comparison leaves them out): a definition carries no
+   payload (known finding K2). *)
 From Coq Require Import List NArith Bool String.
 Import ListNotations.
-From Indi Require Import Base.Sx Msg.Equality Driver.Model Driver.Props Client.Model Client.Props Client.Update System.Converge.
+From Indi Require Import Base.Sx Msg.Equality Driver.Model Driver.Props Client.Model Client.Props Client.Update System.Converge System.Ops.
 
 Theorem a_definition_brings_the_entry_in_sync mi d g v :
   vec_on g v = true ->
@@ -72,3 +79,33 @@ Theorem blob_payload_is_not_shown_by_a_definition_refuted e b f :
   e_value e = VBlob (Some (b, f)) -> ce_value (celem_of e) = CRaw None /\ ce_value (celem_of e) <> CBlob b f.
 Proof. exact (definition_shows_no_blob_payload e b f). Qed.
 Print Assumptions blob_payload_is_not_shown_by_a_definition_refuted.
+
+(* ---------- operations and histories ---------- *)
+Theorem the_handshake_brings_a_fresh_mirror_in_sync d mi :
+  dev_ok d -> mirror_wf mi -> (forall vn, get_vec mi (d_name d) vn = None) ->
+  synced (feed mi (pubs (snd (from_client d (getprops None None))))) d.
+Proof. exact (handshake_synced d mi). Qed.
+Print Assumptions the_handshake_brings_a_fresh_mirror_in_sync.
+
+Theorem every_operation_keeps_the_mirror_in_sync d o mi :
+  dev_ok d -> synced mi d -> op_typed d o ->
+  dev_ok (fst (step d o)) /\ synced (feed mi (pubs (snd (step d o)))) (fst (step d o)) /\ d_name (fst (step d o)) = d_name d.
+Proof. exact (step_synced d o mi). Qed.
+Print Assumptions every_operation_keeps_the_mirror_in_sync.
+
+Theorem every_history_keeps_the_mirror_in_sync ops d mi :
+  dev_ok d -> synced mi d -> ops_typed d ops ->
+  dev_ok (fst (run d ops)) /\ synced (feed mi (pubs (List.concat (snd (run d ops))))) (fst (run d ops)) /\
+  d_name (fst (run d ops)) = d_name d.
+Proof. exact (history_synced ops d mi). Qed.
+Print Assumptions every_history_keeps_the_mirror_in_sync.
+
+Theorem what_in_sync_means mi d :
+  synced mi d -> dev_ok d ->
+  forall vn,
+    match find_gv vn (d_groups d) with
+    | Some (g, v) => option_map blind (get_vec mi (d_name d) vn) = if vec_on g v then Some (blind (shown d g v)) else None
+    | None => get_vec mi (d_name d) vn = None
+    end.
+Proof. exact (synced_means mi d). Qed.
+Print Assumptions what_in_sync_means.
